@@ -25,7 +25,8 @@ import (
 //   os <gomaxprocs> <prog kinds, e.g. w,g,s> <file spec, e.g. 5/1,0/1,3/0>
 //   program kinds: w = order witness, g = witness plus a global gauge, s = syntax error (never loads),
 //   t / e = the witness ending every line in a final `stop` (at top level / in a trailing else)
-//   file spec: <number of lines>/<1 if the last line ends in a newline>; line k of file i is "f<i> <k>"
+//   file spec: <number of lines>/<1 if the last line ends in a newline; 2: a socket; 3: newline, and
+//   every file is matched by several patterns>; line k of file i is "f<i> <k>"
 // OBS: termination, per loaded program the witness metrics per file, lines_total and
 // log_lines_total as moved by this run.
 
@@ -116,7 +117,7 @@ func c19Run(r *runCtx, id string, f []string) {
 		var sb strings.Builder
 		for k := 1; k <= sp[0]; k++ {
 			sb.WriteString(fmt.Sprintf("f%d %d", i, k))
-			if k < sp[0] || sp[1] == 1 {
+			if k < sp[0] || sp[1] == 1 || sp[1] == 3 {
 				sb.WriteString("\n")
 			}
 		}
@@ -136,6 +137,13 @@ func c19Run(r *runCtx, id string, f []string) {
 	patterns := logs
 	if useGlob {
 		patterns = []string{filepath.Join(dir, "log*")}
+	}
+	for _, sp := range specs {
+		if sp[1] == 3 {
+			// every file is matched by its own name and by two globs: it is still read once
+			patterns = append(append([]string{}, logs...), filepath.Join(dir, "log*"), filepath.Join(dir, "*"))
+			break
+		}
 	}
 	old := goruntime.GOMAXPROCS(procs)
 	defer goruntime.GOMAXPROCS(old)
@@ -277,6 +285,11 @@ func init() {
 			}
 			// files of at most one line end before their forwarder may have started: the schedules in
 			// which shutdown overtakes a line live here, so these tiny runs are repeated
+			// short files matched by several patterns: a file that has been read before the next
+			// pattern is globbed is not read again (a matter of timing, so these are repeated too)
+			for rep := 0; rep < 60; rep++ {
+				g.emit("os", strconv.Itoa([]int{1, 2, 16}[rep%3]), []string{"w", "w,g"}[rep%2], []string{"3/3", "1/3,2/1", "2/3,0/1,5/0"}[rep%3])
+			}
 			reps := 120
 			if g.thorough() {
 				reps = 1200
